@@ -65,6 +65,7 @@ pub struct Elab<'a> {
     pub loop_ctr: usize,
     pub cur_loop: usize,
     pub used_loops: BTreeSet<usize>,
+    pub all_loop_headers: Vec<String>,
     pub brk_ctr: usize,
     pub used_keys: BTreeSet<String>,
     pub notes: Vec<String>,
@@ -1599,10 +1600,11 @@ impl<'a> Elab<'a> {
         let ord = self.loop_ctr;
         self.loop_ctr += 1;
         let by_text = self.spec.loops.iter().find(|(k, l)| l.at.as_deref() == Some(h.as_str()) && !self.used_loops.contains(*k)).map(|(k, _)| *k);
+        // ordinal fallback: the contract with this ordinal, unless its own loop (by header text) still exists elsewhere
         let id = match by_text {
             Some(k) => k,
             None => match self.spec.loops.get(&ord) {
-                Some(l) if l.at.is_none() && !self.used_loops.contains(&ord) => ord,
+                Some(l) if !self.used_loops.contains(&ord) && l.at.as_ref().map(|a| !self.all_loop_headers.contains(a)).unwrap_or(true) => ord,
                 _ => 100 + ord,
             },
         };
@@ -1820,20 +1822,31 @@ impl<'a> Elab<'a> {
             struct MatchesArgs {
                 e: Expr,
                 pat: Pat,
+                guard: Option<Expr>,
             }
             impl syn::parse::Parse for MatchesArgs {
                 fn parse(input: syn::parse::ParseStream) -> Result<Self> {
                     let e: Expr = input.parse()?;
                     let _: Token![,] = input.parse()?;
                     let pat = Pat::parse_multi_with_leading_vert(input)?;
+                    let guard = if input.peek(Token![if]) {
+                        let _: Token![if] = input.parse()?;
+                        Some(input.parse::<Expr>()?)
+                    } else {
+                        None
+                    };
                     let _ = input.parse::<Option<Token![,]>>();
-                    Ok(MatchesArgs { e, pat })
+                    Ok(MatchesArgs { e, pat, guard })
                 }
             }
             match syn::parse2::<MatchesArgs>(m.mac.tokens.clone()) {
                 Ok(a) => {
                     let e = self.fold_expr(a.e);
                     let pat = self.fold_pat(a.pat);
+                    if let Some(g) = a.guard {
+                        let g = self.fold_expr(g);
+                        return parse_quote!(match #e { #pat => #g, _ => false });
+                    }
                     return parse_quote!(match #e { #pat => true, _ => false });
                 }
                 Err(_) => self.unsupported("matches! arguments", m.span()),
@@ -1842,6 +1855,29 @@ impl<'a> Elab<'a> {
         if name == "format" && self.u.strlits {
             // the text of a formatted message is opaque
             return parse_quote!(vx_format());
+        }
+        // `assert!(c, ..)` / `debug_assert!(c, ..)` (and the `_eq` / `_ne` forms): a run-time check that panics when it fails.
+        // "Never panics" becomes a proof obligation: the condition is evaluated as written and must be provably true.
+        if matches!(name.as_str(), "assert" | "debug_assert" | "assert_eq" | "debug_assert_eq" | "assert_ne" | "debug_assert_ne") {
+            let parser = syn::punctuated::Punctuated::<Expr, Token![,]>::parse_terminated;
+            if let Ok(args) = syn::parse::Parser::parse2(parser, m.mac.tokens.clone()) {
+                let args: Vec<Expr> = args.into_iter().collect();
+                let cond: Option<Expr> = if name.ends_with("_eq") && args.len() >= 2 {
+                    let (a, b) = (self.fold_expr(args[0].clone()), self.fold_expr(args[1].clone()));
+                    Some(parse_quote!(#a == #b))
+                } else if name.ends_with("_ne") && args.len() >= 2 {
+                    let (a, b) = (self.fold_expr(args[0].clone()), self.fold_expr(args[1].clone()));
+                    Some(parse_quote!(#a != #b))
+                } else if !args.is_empty() && !name.ends_with("_eq") && !name.ends_with("_ne") {
+                    Some(self.fold_expr(args[0].clone()))
+                } else {
+                    None
+                };
+                if let Some(c) = cond {
+                    return parse_quote!({ let __a: bool = #c; assert(__a); });
+                }
+            }
+            self.unsupported(&format!("macro {}! arguments", name), m.span());
         }
         if name == "vec" {
             // `vec![a, b, ..]` (list form): the elements are folded like any other expression; vstd gives `vec!` its meaning
@@ -2044,4 +2080,47 @@ impl<'a> Fold for Elab<'a> {
 
 pub fn quote_block(b: &Block) -> proc_macro2::TokenStream {
     quote!(#b)
+}
+
+
+/// Header texts (whitespace removed) of all loops of a function body, in source order; same texts as `loop_marker` computes.
+pub fn collect_loop_headers(b: &Block) -> Vec<String> {
+    struct V(Vec<String>);
+    fn norm(s: String) -> String {
+        s.chars().filter(|c| !c.is_whitespace()).collect()
+    }
+    impl<'ast> syn::visit::Visit<'ast> for V {
+        fn visit_expr_while(&mut self, w: &'ast ExprWhile) {
+            self.0.push(norm(format!("while {}", expr_to_string(&w.cond))));
+            syn::visit::visit_expr_while(self, w);
+        }
+        fn visit_expr_loop(&mut self, l: &'ast ExprLoop) {
+            self.0.push("loop".to_string());
+            syn::visit::visit_expr_loop(self, l);
+        }
+        fn visit_expr_for_loop(&mut self, f: &'ast ExprForLoop) {
+            self.0.push(norm(format!("for {} in {}", f.pat.to_token_stream(), expr_to_string(&f.expr))));
+            syn::visit::visit_expr_for_loop(self, f);
+        }
+        fn visit_expr_method_call(&mut self, m: &'ast ExprMethodCall) {
+            if m.method == "retain" && m.args.len() == 1 && matches!(&m.args[0], Expr::Closure(_)) {
+                self.0.push(norm(format!("retain {}", expr_to_string(&m.receiver))));
+            }
+            if m.method == "collect" && m.args.is_empty() {
+                if let Expr::MethodCall(mm) = peel_paren(&m.receiver) {
+                    if mm.method == "map" && mm.args.len() == 1 {
+                        if let (Expr::Closure(_), Expr::MethodCall(it)) = (&mm.args[0], peel_paren(&mm.receiver)) {
+                            if it.method == "iter" {
+                                self.0.push(norm(format!("collect {}", expr_to_string(&it.receiver))));
+                            }
+                        }
+                    }
+                }
+            }
+            syn::visit::visit_expr_method_call(self, m);
+        }
+    }
+    let mut v = V(vec![]);
+    syn::visit::Visit::visit_block(&mut v, b);
+    v.0
 }
